@@ -541,7 +541,7 @@ func runC23(u *Unit) {
 
 func init() {
 	Register(&CheckDef{ID: "C22", Level: "fault_enumeration",
-		Rule: "each unit = one populated registry block (2-66 handles, hash modulus 1/2/250) and one writer updating one handle through fs.NewRegistry.UpdateNoLocks, with 0-2 concurrent reader tasks looking up all ids of that block from the segment file; a profiling run lists the writer's durable mutations (backup file write, block write, backup removal); every mutation x {crash before, crash after, torn at every 512-byte boundary and 6 arbitrary lengths for the block write, 4 lengths for the backup file} is executed (3 schedules each when readers are present). Afterwards: restart, every id is looked up through a new registry: each handle must equal its old image or (the updated one) its new image; readers must never have returned anything else; the raw block must have a valid checksum. distinct_nontrivial = distinct (block, mutation, crash variant, schedule) whose crash fired",
+		Rule:    "each unit = one populated registry block (2-66 handles, hash modulus 1/2/250) and one writer updating one handle through fs.NewRegistry.UpdateNoLocks, with 0-2 concurrent reader tasks looking up all ids of that block from the segment file; a profiling run lists the writer's durable mutations (backup file write, block write, backup removal); every mutation x {crash before, crash after, torn at every 512-byte boundary and 6 arbitrary lengths for the block write, 4 lengths for the backup file} is executed (3 schedules each when readers are present). Afterwards: restart, every id is looked up through a new registry: each handle must equal its old image or (the updated one) its new image; readers must never have returned anything else; the raw block must have a valid checksum. distinct_nontrivial = distinct (block, mutation, crash variant, schedule) whose crash fired",
 		Exhaust: "per sampled block: every durable mutation of the writer x crash variants listed",
 		Units: func(tier string) int {
 			if tier == "thorough" {
@@ -554,7 +554,7 @@ func init() {
 		Stub:   []string{"O_DIRECT (buffered I/O on tmpfs)", "concurrent block reads/writes are atomic (4 KiB aligned I/O); tearing happens only with the crash", "process boundary (readers are tasks of other simulated nodes)"},
 		Assume: []string{"non-crash block I/O is atomic", "sampling over blocks, exhaustive over the listed crash variants per block"}})
 	Register(&CheckDef{ID: "C23", Level: "fault_enumeration",
-		Rule: "each unit = one written registry block (3-66 handles, updated once so that a previous valid image exists); corruptions: single-bit flips on a stride over all slots plus each checksum byte, bursts of 2-64 bytes, zeroed tails; x backup file variants {none, valid image of the previous state, image with wrong checksum, empty file} x operation {Get, Update, UpdateNoLocks, Remove} through a fresh registry with empty caches. Without a valid backup every operation must return an error and leave the block bytes untouched. distinct_nontrivial = distinct (block, corruption, backup variant, operation)",
+		Rule:    "each unit = one written registry block (3-66 handles, updated once so that a previous valid image exists); corruptions: single-bit flips on a stride over all slots plus each checksum byte, bursts of 2-64 bytes, zeroed tails; x backup file variants {none, valid image of the previous state, image with wrong checksum, empty file} x operation {Get, Update, UpdateNoLocks, Remove} through a fresh registry with empty caches. Without a valid backup every operation must return an error and leave the block bytes untouched. distinct_nontrivial = distinct (block, corruption, backup variant, operation)",
 		Exhaust: "thorough tier: every bit-flip position on a stride of 7 bytes x 4 backup variants x 4 operations per sampled block; quick tier: stride 62, one third of the product per unit",
 		Units: func(tier string) int {
 			if tier == "thorough" {
